@@ -70,6 +70,17 @@ func (c04) Gen(r *hx.Run) {
 		fmt.Sprintf("4 3 s%s:31 G%s:1 X1 s%sq:32 U1 s%sq:33 g%sq N%s g%s", a, a, a, a, a, a, a),
 		fmt.Sprintf("4 3 s%s:31 O%s:1 X1 g%s U1 g%s W g%s", a, a, a, a, a),
 	)
+	// a burst of pipelined writes to one key, all redirected (ASK) to a node the proxy has never talked to: they must be
+	// executed there in the order they were sent
+	for _, k := range []string{a, b} {
+		var sets []string
+		for i := 0; i < 20; i++ {
+			sets = append(sets, fmt.Sprintf("s%s:%02x", k, 0x41+i))
+		}
+		basic = append(basic,
+			fmt.Sprintf("4 3 G%s:3 { %s g%s } g%s", k, strings.Join(sets, " "), k, k),
+			fmt.Sprintf("4 3 s%s:30 G%s:3 V%s { %s g%s } N%s W g%s", k, k, k, strings.Join(sets[:12], " "), k, k, k))
+	}
 	for _, s := range basic {
 		r.Do("c04.cl "+s, true, "basic")
 	}
